@@ -96,6 +96,8 @@ type X struct {
 	witnesses []string
 	points    []point
 	pointSeen map[string]bool
+	rangeWitness map[string]bool
+	rangeClass   map[string]bool
 	witClass  map[string]string
 	curClass  string
 	heapSorts map[string]string
@@ -123,6 +125,7 @@ type X struct {
 	noFacts   int
 	entryState *State
 	retHook    func(v Val)
+	siteAsserts []SiteAssert
 	readPats   map[string]*regexp.Regexp
 	sideConds []sideCond
 }
@@ -1002,6 +1005,8 @@ type frame struct {
 	inLoop  *loopInfo
 	exitsTo []edge
 	iters   map[*ssa.Range]Iter
+	names   map[string]func() TV // source-level names seen so far (debug refs, named phis)
+	fired   map[string]bool      // site assertions already emitted (by assertion and line)
 }
 
 type edge struct {
@@ -1333,6 +1338,13 @@ func (x *X) runBlock(fr *frame, b *ssa.BasicBlock, only map[int]bool) {
 			}
 		}
 		fr.vals[phi] = x.nameVal(valueHint(phi), val)
+		if phi.Comment != "" && phi.Comment != "rangeindex" {
+			pv, pt := fr.vals[phi], phi.Type()
+			if fr.names == nil {
+				fr.names = map[string]func() TV{}
+			}
+			fr.names[phi.Comment] = func() TV { return TV{pv, pt} }
+		}
 	}
 	for _, ins1 := range b.Instrs {
 		if _, ok := ins1.(*ssa.Phi); ok {
@@ -1509,6 +1521,14 @@ func (x *X) instances(upto int) string {
 				continue
 			}
 			pts = append(pts, p.term)
+			if q.class == "" && p.class != "*" && p.class != "idx" && x.rangeWitness[p.term] {
+				// witness of a range loop: the loop counts the previous index, the body works on the next one
+				pts = append(pts, "(+ "+p.term+" 1)")
+			}
+			if p.class == "idx" && q.class != "" && x.rangeClass[q.class] {
+				// an element index named by the specification, seen from a range loop (which counts the previous index)
+				pts = append(pts, "(- "+p.term+" 1)")
+			}
 			if p.class == "*" {
 				pts = append(pts, "(- "+p.term+" 1)", "(+ "+p.term+" 1)")
 			}
